@@ -40,7 +40,9 @@ pub fn take() -> Vec<Candidate> {
 }
 
 pub(crate) fn record_candidate(mask: Mask, score: u32, qr: &QRCode) {
-    SINK.with(|s| {
+    // `try_with`: a build that runs while its thread is being torn down (from the destructor of
+    // a caller's thread-local) finds this slot already destroyed; it is then simply not recorded
+    let _ = SINK.try_with(|s| {
         if let Some(sink) = s.borrow_mut().as_mut() {
             let n = qr.size;
             sink.push(Candidate {
